@@ -16,6 +16,13 @@ structure DecOK (E : Env) : Prop where
   no_nl : ∀ p, p < E.len → (E.dec E.inp p).1 ≠ 10 →
     ∀ i, p ≤ i → i < p + (E.dec E.inp p).2 → bAt E.inp i ≠ 10
 
+/-- What the error-position proof (C19) assumes about the rune classifier: the newline is
+    neither a letter nor a digit, so a name never spans lines.  (True of `unicode.IsLetter`
+    / `unicode.IsDigit`; without it C19 fails, see `SqlairProofs/Props/Parser.lean`.) -/
+structure ClassOK (E : Env) : Prop where
+  letter_nl : E.letter 10 = false
+  digit_nl : E.digit 10 = false
+
 /-- number of newline bytes in `inp[0:off)` -/
 def nlCount (inp : Bytes) (off : Nat) : Nat := ((inp.extract 0 off).toList.filter (· == 10)).length
 
